@@ -204,6 +204,16 @@ func (r *regulator) dispatchPlayer(players []string) ([]string, error) {
 		return players, ErrNoAvailableTable
 	}
 
+	// A table never takes more players than it has room for, whatever it still requires
+	if room := r.maxPlayersPerTable - t.PlayerCount; t.Required > room {
+		if room <= 0 {
+			t.Required = 0
+			return players, nil
+		}
+
+		t.Required = room
+	}
+
 	candidates := players
 	var picked []string
 
